@@ -6,6 +6,7 @@ import (
 	"encoding/json"
 	"fmt"
 	"net/url"
+	"os"
 	"strings"
 	"sync"
 
@@ -1155,6 +1156,58 @@ func checkTailCycle(in tailCycleInput) string {
 	return ""
 }
 
+// the entry points that take a base location (ExpandParameter, ExpandResponse, ExpandSchemaWithBasePath) on a cyclic
+// document whose location the caller spells in a way that is not canonical
+type baseSpellCycleInput struct {
+	Root     string `json:"root"`     // canonical location of the document
+	Spelling string `json:"spelling"` // the base location as the caller writes it
+	Shape    string `json:"shape"`    // param-chain | response-schema | schema
+}
+
+func baseSpellCycleCases() []baseSpellCycleInput {
+	var out []baseSpellCycleInput
+	cwd, _ := os.Getwd()
+	pairs := [][2]string{
+		{"file:///srv/spec.json", "/srv/a/../spec.json"}, {"file:///srv/spec.json", "/srv/./spec.json"}, {"file:///srv/spec.json", "file:///srv/a/../spec.json"},
+		{"file:///srv/spec.json", "/srv//spec.json"}, {"http://example.com/spec.json", "http://example.com/api/../spec.json"},
+		{"http://example.com/spec.json", "HTTP://EXAMPLE.com/spec.json"}, {"http://example.com/spec.json", "http://example.com:80/./spec.json"},
+		{"file://" + cwd + "/spec.json", "./spec.json"}, {"file://" + cwd + "/docs/api/spec.json", "docs/api/spec.json"},
+		{"file://" + cwd + "/spec.json", "docs/../spec.json"}, {"file://" + cwd + "/spec.json", "spec.json"},
+	}
+	for _, p := range pairs {
+		for _, sh := range []string{"param-chain", "response-schema", "schema"} {
+			out = append(out, baseSpellCycleInput{Root: p[0], Spelling: p[1], Shape: sh})
+		}
+	}
+	return out
+}
+
+func checkBaseSpellCycle(in baseSpellCycleInput) string {
+	type m = map[string]interface{}
+	doc := m{"swagger": "2.0", "info": m{"title": "t", "version": "1"}, "paths": m{},
+		"parameters":  m{"p": m{"$ref": "#/parameters/q"}, "q": m{"$ref": "#/parameters/p"}},
+		"definitions": m{"node": m{"type": "object", "properties": m{"next": m{"$ref": "#/definitions/node"}}}}}
+	g := exFromGeneric(m{in.Root: doc}, in.Root)
+	var c *exCall
+	switch in.Shape {
+	case "param-chain":
+		c = g.call("expand_param", exOpts{})
+		c.Element = json.RawMessage(`{"$ref":"#/parameters/p"}`)
+	case "response-schema":
+		c = g.call("expand_response", exOpts{})
+		c.Element = json.RawMessage(`{"description":"d","schema":{"$ref":"#/definitions/node"}}`)
+	default:
+		c = g.call("expand_schema", exOpts{})
+		c.Element = json.RawMessage(`{"$ref":"#/definitions/node"}`)
+	}
+	c.Entry, c.Spelling = "base_path", in.Spelling
+	res := exWorkerRun(c)
+	if res.Timeout || res.Panic != "" {
+		return fmt.Sprintf("%s with the base location %q does not return (or crashes) on a cyclic document: %.200s", c.Op, in.Spelling, res.Panic)
+	}
+	return ""
+}
+
 func oracleC04Tail(r *rng, n int, tier string) *oracleResult {
 	exQuiet()
 	res := &oracleResult{Stats: map[string]int{}}
@@ -1179,6 +1232,21 @@ func oracleC04Tail(r *rng, n int, tier string) *oracleResult {
 			}
 		}
 	}
+	for _, in := range baseSpellCycleCases() {
+		if fails >= 2 {
+			res.Stats["not-examined-after-two-failures"]++
+			continue
+		}
+		res.Evaluations++
+		res.Distinct++
+		if msg := checkBaseSpellCycle(in); msg != "" {
+			fails++
+			res.Stats["fail:base-spelling-cycle"]++
+			if fails <= 1 {
+				res.Failures = append(res.Failures, failure{Property: "C04", What: msg, Shape: "base-spelling-on-cycle", Input: in})
+			}
+		}
+	}
 	res.Samples = []interface{}{tailCycleInput{Kind: "parameter", Cycle: 1}}
 	return res
 }
@@ -1188,11 +1256,137 @@ func init() {
 	replays["C04tail"] = func(input json.RawMessage) *oracleResult {
 		var in tailCycleInput
 		res := &oracleResult{Stats: map[string]int{}, Evaluations: 1}
+		var bs baseSpellCycleInput
+		if json.Unmarshal(input, &bs) == nil && bs.Spelling != "" {
+			if msg := checkBaseSpellCycle(bs); msg != "" {
+				res.Failures = append(res.Failures, failure{Property: "C04", What: msg, Shape: "base-spelling-on-cycle", Input: bs})
+			}
+			return res
+		}
 		if json.Unmarshal(input, &in) != nil {
 			return res
 		}
 		if msg := checkTailCycle(in); msg != "" {
 			res.Failures = append(res.Failures, failure{Property: "C04", What: msg, Shape: "tail-into-element-cycle", Input: in})
+		}
+		return res
+	}
+}
+
+// ---------------------------------------------------------------------------------------------
+// C08: a parameter, response or path item written as a reference object WITH further members the target does not define:
+// those members stay (the target is decoded over the object) and are visited, so a `$ref` below them that cannot be
+// resolved is reported like any other - an error in strict mode, left in place when asked to continue.
+
+type refSiblingInput struct {
+	Kind  string `json:"kind"`  // response | parameter | pathitem
+	Fault string `json:"fault"` // missing-pointer | refused-document
+	Place string `json:"place"` // operation | shared | path-level
+}
+
+func refSiblingGraph(in refSiblingInput) (*exGraph, string) {
+	type m = map[string]interface{}
+	const rootURL = "file:///w/api/root.json"
+	bad := "#/definitions/nowhere"
+	if in.Fault == "refused-document" {
+		bad = "gone.json#/definitions/T"
+	}
+	badSchema := m{"$ref": bad}
+	root := m{"swagger": "2.0", "info": m{"title": "root", "version": "1"},
+		"definitions": m{"T": m{"type": "string"}},
+		"parameters":  m{"plain": m{"name": "q", "in": "query", "type": "string"}},
+		"responses":   m{"plain": m{"description": "no schema here"}}}
+	op := m{"responses": m{"200": m{"description": "ok"}}}
+	paths := m{"/a": m{"get": op}}
+	switch in.Kind {
+	case "response":
+		refObj := m{"$ref": "#/responses/plain", "schema": badSchema}
+		if in.Place == "shared" {
+			root["responses"].(m)["viaRef"] = refObj
+			op["responses"].(m)["default"] = m{"$ref": "#/responses/viaRef"}
+		} else {
+			op["responses"].(m)["default"] = refObj
+		}
+	case "parameter":
+		refObj := m{"$ref": "#/parameters/plain", "schema": badSchema}
+		if in.Place == "path-level" {
+			paths["/a"].(m)["parameters"] = []interface{}{refObj}
+		} else {
+			op["parameters"] = []interface{}{refObj}
+		}
+	case "pathitem":
+		paths["/shared"] = m{"parameters": []interface{}{m{"name": "q", "in": "query", "type": "string"}}}
+		paths["/b"] = m{"$ref": "#/paths/~1shared", "get": m{"responses": m{"200": m{"description": "ok", "schema": badSchema}}}}
+	}
+	root["paths"] = paths
+	g := exFromGeneric(m{rootURL: root}, rootURL)
+	if in.Fault == "refused-document" {
+		g.Missing = []string{"file:///w/api/gone.json"}
+	}
+	return g, bad
+}
+
+func checkRefSibling(in refSiblingInput) string {
+	g, bad := refSiblingGraph(in)
+	tail := bad[strings.Index(bad, "#"):]
+	for _, skip := range []bool{false} {
+		strict := exWorkerRun(g.call("expand_spec", exOpts{Skip: skip}))
+		if strict.Timeout || strict.Panic != "" {
+			return ""
+		}
+		if !strict.Err {
+			return fmt.Sprintf("no error although the `$ref` %q, written next to the `$ref` of a %s, cannot be resolved", bad, in.Kind)
+		}
+		cont := exWorkerRun(g.call("expand_spec", exOpts{Cont: true, Skip: skip}))
+		if cont.Timeout || cont.Panic != "" {
+			return ""
+		}
+		if cont.Err {
+			return fmt.Sprintf("ContinueOnError: an error is returned for the unresolvable `$ref` %q: %.200s", bad, cont.ErrText)
+		}
+		if exFindRefText(exDecode(cont.Out), func(r string) bool { return strings.HasSuffix(r, tail) }) == "" {
+			return fmt.Sprintf("ContinueOnError: the unresolvable `$ref` %q, written next to the `$ref` of a %s, is not left in place", bad, in.Kind)
+		}
+	}
+	return ""
+}
+
+func refSiblingCases() []refSiblingInput {
+	var out []refSiblingInput
+	for _, f := range []string{"missing-pointer", "refused-document"} {
+		out = append(out, refSiblingInput{"response", f, "operation"}, refSiblingInput{"response", f, "shared"},
+			refSiblingInput{"parameter", f, "operation"}, refSiblingInput{"parameter", f, "path-level"}, refSiblingInput{"pathitem", f, "operation"})
+	}
+	return out
+}
+
+func oracleC08Sibling(r *rng, n int, tier string) *oracleResult {
+	exQuiet()
+	res := &oracleResult{Stats: map[string]int{}}
+	for _, in := range refSiblingCases() {
+		res.Evaluations++
+		res.Distinct++
+		if msg := checkRefSibling(in); msg != "" {
+			res.Stats["fail:ref-sibling"]++
+			if len(res.Failures) < 2 {
+				res.Failures = append(res.Failures, failure{Property: "C08", What: msg, Shape: "silent-failure:below-a-member-next-to-a-reference", Input: in})
+			}
+		}
+	}
+	res.Samples = []interface{}{refSiblingInput{"response", "missing-pointer", "operation"}}
+	return res
+}
+
+func init() {
+	oracles["C08sibling"] = oracleC08Sibling
+	replays["C08sibling"] = func(input json.RawMessage) *oracleResult {
+		var in refSiblingInput
+		res := &oracleResult{Stats: map[string]int{}, Evaluations: 1}
+		if json.Unmarshal(input, &in) != nil {
+			return res
+		}
+		if msg := checkRefSibling(in); msg != "" {
+			res.Failures = append(res.Failures, failure{Property: "C08", What: msg, Shape: "silent-failure:below-a-member-next-to-a-reference", Input: in})
 		}
 		return res
 	}
